@@ -23,7 +23,37 @@ def build_ops(names=NAMES4):
     return ops
 
 
-def run_sequences(first, depth, judge, names=NAMES4, start_nodes=()):
+def move_ops(names=NAMES3):
+    """Edge moves: one existing edge is taken out of the underlying networkx graph (``y.directed`` / ``y.undirected`` are
+    public attributes) and another edge of the same kind is put in, as ONE step: node and edge counts stay the same, so a
+    memo validated by counts, sizes or ``id(graph)`` survives the edit (seeded change C02-g)."""
+    d = [(u, v) for u in names for v in names if u != v]
+    b = list(itt.combinations(names, 2))
+    return [("md", e, f) for e in d for f in d if e != f] + [("mb", e, f) for e in b for f in b if e != f]
+
+
+def _apply_move(y, nodes, di, bi, op):
+    """Apply a move to the live object and the reference lists; False if it is not applicable (then nothing is changed)."""
+    kind, e, f = op
+    if kind == "md":
+        if e not in di or f in di:
+            return False
+        new = [x for x in di if x != e] + [f]
+        if not is_acyclic(nodes, new):
+            return False
+        di[:] = new
+        y.directed.remove_edge(V(e[0]), V(e[1]))
+        y.add_directed_edge(V(f[0]), V(f[1]))
+    else:
+        if e not in bi or f in bi:
+            return False
+        bi[:] = [x for x in bi if x != e] + [f]
+        y.undirected.remove_edge(V(e[0]), V(e[1]))
+        y.add_undirected_edge(V(f[0]), V(f[1]))
+    return True
+
+
+def run_sequences(first, depth, judge, names=NAMES4, start_nodes=(), moves=False):
     """Every sequence of ``depth`` insertions that starts with operation number ``first``.
 
     judge(y, g, hist) is called on the live object ``y`` and the reference ``g`` after every valid insertion; a false
@@ -34,6 +64,8 @@ def run_sequences(first, depth, judge, names=NAMES4, start_nodes=()):
     from y0.graph import NxMixedGraph
 
     ops = build_ops(names)
+    if moves:
+        ops = ops + move_ops(names)  # ``first`` always indexes an insertion (a move needs an edge to move)
     n = 0
     for tail in itt.product(range(len(ops)), repeat=depth - 1):
         seq = (first,) + tail
@@ -45,6 +77,15 @@ def run_sequences(first, depth, judge, names=NAMES4, start_nodes=()):
         hist = [["n", s, s] for s in start_nodes]
         for k in seq:
             kind, u, v = ops[k]
+            if kind in ("md", "mb"):
+                if any(x not in nodes for x in v):
+                    break  # a move never introduces a node
+                if not _apply_move(y, nodes, di, bi, ops[k]):
+                    break
+                hist.append([kind, list(u), list(v)])
+                if not judge(y, G(tuple(nodes), tuple(di), tuple(bi)), [list(h) for h in hist]):
+                    break
+                continue
             hist.append([kind, u, v])
             for x in (u, v):
                 if x not in nodes:
@@ -78,6 +119,11 @@ def replay_sequence(hist, judge):
         if kind == "n":
             nodes.append(u)
             y.add_node(V(u))
+            continue
+        if kind in ("md", "mb"):
+            assert _apply_move(y, nodes, di, bi, (kind, tuple(u), tuple(v))), "recorded move is not applicable"
+            if not judge(y, G(tuple(nodes), tuple(di), tuple(bi)), [list(h) for h in done]):
+                break
             continue
         for x in (u, v):
             if x not in nodes:
